@@ -1,6 +1,8 @@
 package checks
 
 import (
+	"strings"
+
 	"package-operator.run/internal/constants"
 
 	"package-operator.run/verifharness/engine"
@@ -77,6 +79,13 @@ func (m *C05Monitor) AfterPass(r *Runner, pv *PassView) error {
 		if c.Key.Group == engine.PKOGroup {
 			// "deleted with orphan propagation: nothing is deleted at all" includes the ObjectSetPhase of a delegated phase:
 			// deleting it makes the phase controller (which sees no orphan finalizer on the phase) delete the phase's objects
+			// "deletes only what it controls" holds for PKO's own intermediate objects too: an ObjectSetPhase that (no longer)
+			// has this ObjectSet as its controller - orphaned by the garbage collector, or belonging to another ObjectSet whose
+			// name + phase name spell the same - is not this ObjectSet's to delete; its controller would tear down its objects
+			if c.Verb == "delete" && !c.DryRun && c.Err == "" && strings.HasSuffix(c.Key.Kind, "ObjectSetPhase") && c.Pre != nil && !ControlledByID(c.Pre, ownerID, false) {
+				return Violf("C05", "delete-of-uncontrolled-phase-object",
+					"pass %d: %s %s deleted %s, which it does not control (owners %v)", pv.P.ID, ownerID.Kind, ownerID.Name, c.Key, OwnersOf(c.Pre, false))
+			}
 			if orphan && c.Verb == "delete" && !c.DryRun && c.Key != pv.OwnerKey {
 				return Violf("C05", "write-during-orphan-deletion",
 					"pass %d: %s is being deleted with orphan propagation but PKO issued %s on %s", pv.P.ID, ownerID.Name, c.Verb, c.Key)
